@@ -19,13 +19,17 @@ ID = "C09"
 hang_is_violation = False
 
 TIERS = {
-    "quick": {"budget_s": 75, "max_ops": 8, "size": (2, 10), "pool": (2, 3), "run_timeout": 90.0,
+    "quick": {"budget_s": 75, "exhaustive_len": 3, "max_ops": 8, "size": (2, 10), "pool": (2, 3), "run_timeout": 90.0,
               "determinism_every": 40},
-    "thorough": {"budget_s": 1200, "max_ops": 12, "size": (2, 22), "pool": (3, 5),
+    "thorough": {"budget_s": 1200, "exhaustive_len": 4, "max_ops": 12, "size": (2, 22), "pool": (3, 5),
                  "run_timeout": 120.0, "determinism_every": 300, "determinism_max": 200},
 }
 
-RULE = ("one run = one seeded history of <=12 operations over {create(f2003|f2008|None|invalid), "
+RULE = ("first, bounded-exhaustively: every history of length <= 3 (quick) / <= 4 (thorough) over "
+        "the alphabet {create(f2003), create(f2008), 4 fixed valid, 4 fixed invalid programs}, "
+        "each followed by create(s); parse(x) for both standards and 3 fixed probe programs "
+        "(1110 / 11110 runs, enumerated by run index); then, for the rest of the budget, one "
+        "run = one seeded history of <=12 operations over {create(f2003|f2008|None|invalid), "
         "parse(valid_i|invalid_j, reader options, reader kind, stream fault at line k), direct "
         "rule use, fparser1 api.parse, print of an earlier tree, edit of an earlier tree, memo "
         "eviction} over a pool of small programs with colliding unit names and intrinsic-"
@@ -46,7 +50,7 @@ COMPONENTS = {
     "stub": ["the caller (seeded history)", "line stream with EOF / error at line k",
              "process exit (SystemExit trap)"],
 }
-PROBES = ["failing_parse_scope_depth_ge2", "main_program0_path", "same_unit_name_consecutive",
+PROBES = ["exhaustive_history_run", "failing_parse_scope_depth_ge2", "main_program0_path", "same_unit_name_consecutive",
           "compared_in_clean_state", "compared_after_failure", "block_counter_nonzero_at_compare",
           "fparser1_interleaved", "create_switches_std", "stream_fault_failure",
           "failure_in_unclean_state", "exit_trapped"]
@@ -97,7 +101,80 @@ TINY = [
 ]
 
 
+# ---- bounded-exhaustive part: every history over a small fixed alphabet ----------------
+ALPHABET_POOL = {
+    "V1": "module m\nreal :: sin(3)\ncontains\nsubroutine s\nx = sin(1)\nend subroutine s\n"
+          "end module m\n",
+    "V2": "x = sin(y)\nend\n",
+    "V3": "program p\ninteger :: i\nblock\nreal :: max(2)\ni = max(1)\nend block\n"
+          "end program p\n",
+    "V4": "subroutine s\nreal :: cos(2)\nx = cos(1)\nend subroutine s\nfunction f(a)\n"
+          "f = cos(a)\nend function f\n",
+    "I1": "x = 1\ndo i = 1, 2\nend do foo\nend\n",
+    "I2": "program p\ncontains\nsubroutine s\nend subroutine t\nend program p\n",
+    "I3": "module m\ninteger :: sin\nend module q\n",
+    "I4": "subroutine s\nreal :: cos(2)\nx = cos(1) +\nend subroutine s\n",
+    "X1": "x = sin(y) + cos(y)\nend\n",
+    "X2": "module m\ncontains\nsubroutine s\nx = sin(1) + cos(2) + max(1, 2)\n"
+          "end subroutine s\nend module m\n",
+    "X3": "program p\nx = max(1, 2)\nblock\ny = 1\nend block\nend program p\n",
+}
+ALPHABET = ["c03", "c08", "V1", "V2", "V3", "V4", "I1", "I2", "I3", "I4"]
+
+
+def exhaustive_count(max_len):
+    return sum(len(ALPHABET) ** k for k in range(1, max_len + 1))
+
+
+def exhaustive_history(index):
+    """index -> history (list of alphabet symbols), shortest first."""
+    k = 1
+    while index >= len(ALPHABET) ** k:
+        index -= len(ALPHABET) ** k
+        k += 1
+    hist = []
+    for _ in range(k):
+        hist.append(ALPHABET[index % len(ALPHABET)])
+        index //= len(ALPHABET)
+    return hist
+
+
+def _exhaustive_case(index):
+    hist = exhaustive_history(index)
+    ops = [["create", "f2003"]]
+    plain = {"ignore_comments": True}
+    for sym in hist:
+        if sym == "c03":
+            ops.append(["create", "f2003"])
+        elif sym == "c08":
+            ops.append(["create", "f2008"])
+        else:
+            ops.append(["parse", sym, plain, "string", None])
+    for std in ("f2003", "f2008"):
+        for x in ("X1", "X2", "X3"):
+            ops.append(["create", std])
+            ops.append(["parse", x, plain, "string", None])
+    return {"prop": ID, "pool": dict(ALPHABET_POOL), "ops": ops, "exhaustive_index": index,
+            "history": hist}
+
+
+def prepare(cfg):
+    """Fresh-process references for the fixed alphabet, computed once per batch in the
+    pristine template process (a replay recomputes them itself)."""
+    refs = {}
+    plain = {"ignore_comments": True}
+    for std in ("f2003", "f2008"):
+        for key, text in sorted(ALPHABET_POOL.items()):
+            refs["%s|%s" % (std, key)] = ref.outcome(std, "string", text, plain)
+    return {"_cache_refs": refs}
+
+
 def generate(run_seed, cfg):
+    if cfg.get("index", 0) < exhaustive_count(cfg.get("exhaustive_len", 0)):
+        case = _exhaustive_case(cfg["index"])
+        if cfg.get("_cache_refs"):
+            case["_cache_refs"] = cfg["_cache_refs"]
+        return case
     st = rng.Streams(run_seed)
     sw = st("swarm")
     npool = sw.randrange(cfg["pool"][0], cfg["pool"][1] + 1)
@@ -246,13 +323,19 @@ def execute(case):
             std = op[1] or "f2003"
         elif op[0] == "parse":
             key = (std, op[1], repr(sorted(op[2].items())), op[3], repr(op[4]))
+            cached = (case.get("_cache_refs") or {}).get("%s|%s" % (std, op[1]))
+            if key not in refs and cached is not None and op[3] == "string" and \
+                    op[2] == {"ignore_comments": True}:
+                refs[key] = cached
             if key not in refs:
                 if op[3] == "lines":
                     refs[key] = _ref_lines(std, pool[op[1]], op[2], op[4])
                 else:
                     refs[key] = ref.outcome(std, "string", pool[op[1]], op[2])
     host.install_log_counter()
-    from fparser.two.symbol_table import SYMBOL_TABLES
+    if "exhaustive_index" in case:
+        probe("exhaustive_history_run")
+        stats.setdefault("counters", {})["exhaustive_len_%d" % len(case["history"])] = 1
 
     parser = None
     std = None
